@@ -226,7 +226,15 @@ pub fn gen_plan(seed: u64, mixed_kinds: bool) -> GatherPlan {
     GatherPlan { env, prefix, common, metrics, orders, hash_seeds, concurrent_gather: focus || r.chance(30), prelude, custom: vec![], poison: r.chance(15), custom_type_unset: false, stable, custom_extra_values: false, bundle_fault: r.chance(15), race_register: r.chance(15), help_fault: r.chance(15) }
 }
 
+/// histogram children whose value is a multiple of 8 are created but never observed (an idle,
+/// pre-created child must still be exposed as a histogram sample: seeded change C14-r18)
+fn idle(v: u32) -> bool {
+    v % 8 == 0
+}
 fn hist_model(v: u32) -> compat::PHist {
+    if idle(v) {
+        return compat::PHist { count: 0, sum: 0.0, buckets: BOUNDS.iter().map(|b| (*b, 0)).collect() };
+    }
     // value v is observed once
     let x = v as f64;
     compat::PHist { count: 1, sum: x, buckets: BOUNDS.iter().map(|b| (*b, (x <= *b) as u64)).collect() }
@@ -317,7 +325,9 @@ fn build_metric(m: &MetricSpec) -> std::result::Result<Built, String> {
         }
         MK::Histogram => {
             let c = Histogram::with_opts(hopts()).map_err(e)?;
-            c.observe(m.children[0].1 as f64);
+            if !idle(m.children[0].1) {
+                c.observe(m.children[0].1 as f64);
+            }
             Built::H(c)
         }
         MK::Pulling => {
@@ -347,7 +357,10 @@ fn build_metric(m: &MetricSpec) -> std::result::Result<Built, String> {
             let c = HistogramVec::new(hopts(), &names).map_err(e)?;
             for (vals, v) in &m.children {
                 let vs: Vec<&str> = vals.iter().map(|s| s.as_str()).collect();
-                c.get_metric_with_label_values(&vs).map_err(e)?.observe(*v as f64);
+                let child = c.get_metric_with_label_values(&vs).map_err(e)?;
+                if !idle(*v) {
+                    child.observe(*v as f64);
+                }
             }
             Built::HV(c)
         }
